@@ -79,9 +79,11 @@ def run(rep, scratch, tier, seed, replay=None):
             why = "opening returned %s, the model says %s" % (oc, b)
         elif rel and rel[0] == "LOCK-HELD":
             why = "the file is still locked after %s" % ("a failed open" if oc == "ERR" else "Close")
-        elif same and same[0] == "MODIFIED" and defects[0] not in ("zerolen", "garbage", "missing"):
+        elif same and same[0] == "MODIFIED" and defects[0] == "missing":
+            why = "opening a path that does not exist created it"
+        elif same and same[0] == "MODIFIED" and defects[0] not in ("zerolen", "garbage"):
             # (a zero-length file is initialised by bbolt when opened read-write; the properties
-            #  only speak about index files and bbolt files here)
+            #  only speak about missing paths, index files and bbolt files here)
             why = "the file was modified by opening it"
         elif "CLOSE-PANIC" in a or "CLOSE2-ERR" in a or "CLOSE-HANG" in a:
             why = "repeated Close (4 calls) %s" % ("panicked" if "CLOSE-PANIC" in a else "did not return" if "CLOSE-HANG" in a else "returned an error")
